@@ -141,7 +141,7 @@ def run(case, st):
         return {'nontrivial': True}
     finally:
         common.plastex_reset()
-    w = Walk(doc).run()
+    w = Walk(doc, all_chains=True).run()
     got = [m[0] for m in w.markers]
     want = case['order']
     st.counters['markers_compared'] += len(want)
